@@ -303,7 +303,8 @@ def finish(pid, tier, seed, partials, rule, assumptions, exhaustive_groups, t0, 
                                     "key": v["key"], "detail": v["detail"], "case": v["case"],
                                     "occurrences": vcount[v["key"]],
                                     "replay": "./check %s --replay %s" % (pid, path)}, indent=1))
-        lines.append("VIOLATION property=%s replay=%s key=%s occurrences=%d" % (pid, path, v["key"], vcount[v["key"]]))
+        lines.append("VIOLATION property=%s replay=%s" % (pid, path))
+        lines.append("  detail: key=%s occurrences=%d" % (v["key"], vcount[v["key"]]))
 
     wall = time.time() - t0
     ev = {
@@ -341,6 +342,7 @@ def finish(pid, tier, seed, partials, rule, assumptions, exhaustive_groups, t0, 
     else:
         code = EXIT_HELD
     nk = sum(1 for ln in lines if ln.startswith("KNOWN"))
+    sys.stdout.flush()
     print("%s %s tier=%s seed=%s cases=%d evaluations=%d distinct_nontrivial=%d violations(new keys)=%d known=%d wall=%.1fs"
           % (pid, ["HELD", "VIOLATED", "INCONCLUSIVE"][code], tier, seed, sum(cases.values()), sum(evals.values()), len(sigs), nviol_new, nk, wall))
     return code
